@@ -137,8 +137,9 @@ def term(c, o):
              ('list irec', clist(o['recs'], lambda r: '(%s)' % crec(r))),
              ('list (Z * Z * Z)', clist(c['queries'], lambda q: '(%s, %s, %s)' % (cz(q[0]), cz(q[1]), cz(q[2])))),
              ('ixstrat', cstrat(c['strat'])),
+             ('ixstrat', cstrat(c.get('qstrat', 'nil') if c['kind'] == 'bai' else 'nil')),
              ('ixobs', cobs(o))]
-    return (parts, 'mkCase %s %s %s %s %s')
+    return (parts, 'mkCase %s %s %s %s %s %s')
 
 
 def mismatches(header, ctype, agree, terms, tag, shard=None, jobs=8, explain=None):
@@ -244,8 +245,8 @@ def io_term(c, o):
     if foreign:
         fstatus = 3 if 'rdpanic' in o and 'frderr' not in o else status(o, 'frderr', 'frdnil', None)
         if fstatus != 0:
-            base = ([('ixkind', ckind(c)), ('list irec', '[]'), ('list (Z * Z * Z)', '[]'), ('ixstrat', 'SNil'),
-                     ('ixobs', '(mkObs [] false true %s %s [] %s [] [] [])' % (EMPTY_DUMP, EMPTY_STAT, EMPTY_DUMP))], 'mkCase %s %s %s %s %s')
+            base = ([('ixkind', ckind(c)), ('list irec', '[]'), ('list (Z * Z * Z)', '[]'), ('ixstrat', 'SNil'), ('ixstrat', 'SNil'),
+                     ('ixobs', '(mkObs [] false true %s %s [] %s [] [] [])' % (EMPTY_DUMP, EMPTY_STAT, EMPTY_DUMP))], 'mkCase %s %s %s %s %s %s')
             io = '(mkIO %s [] (mkBytes None 0 0) %s 0 %s %s [] [] false)' % (cz(fstatus), EMPTY_DUMP, EMPTY_STAT, EMPTY_DUMP)
             parts, fmt = base
             return (parts + [('list Z', clist(c['foreign'])), ('ioobs', io)], 'mkIOCase (' + fmt + ') (Some %s) %s')
